@@ -414,6 +414,29 @@ ATTACKS = {
     "require-absolute-lua-file": 'local ok, r = pcall(require, "@@ABSSECRET@@"); return tostring(ok) .. ":" .. tostring(r)',
     "new-loader-absolute": 'local f = _new_loader("@@ABSSECRET@@"); return tostring(f and f())',
     "loaddata-absolute": 'local ok, r = pcall(mw.loadData, "@@ABSSECRET@@"); return tostring(ok) .. ":" .. tostring(r)',
+    "loader-path-variants": """
+  local abs = "@@ABSSECRET@@"
+  local colon = abs:gsub("/", ":")
+  local names = { abs, "/" .. abs, ":" .. abs, colon, ":" .. colon, "::" .. colon,
+                  " " .. abs, "\\n" .. abs, "\\t" .. colon, "." .. abs, "./" .. abs,
+                  ".:" .. colon, colon .. ".lua", abs .. ".lua", ":/" .. abs,
+                  "Module:" .. abs, "Module:" .. colon, abs:gsub("/", "//"),
+                  abs:gsub("/", "/./"), "@@RELSECRET@@", ("@@RELSECRET@@"):gsub("/", ":") }
+  local loaders = {
+    function(n) return require(n) end,
+    function(n) local f = _new_loader(n); return f and f() end,
+    function(n) return mw.loadData(n) end,
+    function(n) return mw.loadJsonData(n) end,
+    function(n) local f = package.loaders[2](n); return f and f() end,
+  }
+  for _, n in ipairs(names) do
+    for _, l in ipairs(loaders) do
+      local ok, r = pcall(l, n)
+      if ok and r ~= nil then return "LOADED:" .. tostring(r) end
+    end
+  end
+  return "nothing loaded"
+""",
     "require-dotdot": 'return tostring(pcall(require, "../../../../etc/passwd"))',
     "require-abs": 'return tostring(pcall(require, "/etc/passwd"))',
     "require-colon-path": 'return tostring(pcall(require, "..:..:..:core"))',
